@@ -423,6 +423,9 @@ class BasicBlock(Value):
             # producing %7, then we'll have ``ret None``, and if we want to
             # replace that with a new reference, we can't as the reference to
             # %7 is missing.
+            # The use lists may be out of date at this point (an earlier pass
+            # can have exchanged instructions for copies), so refresh them
+            self.Parent.UpdateUses()
             self.Parent.ReplaceUses(self.__replaceUses)
 
         if self.__replacements:
